@@ -82,6 +82,7 @@ def add_header_to_file(
     """Helper function."""
     # pylint: disable=too-many-arguments,too-many-locals
     result = 0
+    created_license_file = False
     comment_style: Optional[Type[CommentStyle]] = NAME_STYLE_MAP.get(
         cast(str, style)
     )
@@ -100,6 +101,7 @@ def add_header_to_file(
             )
             out.write("\n")
             path = _determine_license_suffix_path(path)
+            created_license_file = not path.exists()
             path.touch()
             comment_style = EmptyCommentStyle
 
@@ -165,5 +167,10 @@ def add_header_to_file(
         # TODO: This may need to be rephrased more elegantly.
         out.write(_("Successfully changed header of {path}").format(path=path))
         out.write("\n")
+
+    # Do not leave the freshly created, empty .license file behind if no
+    # header could be written into it.
+    if result and created_license_file:
+        path.unlink()
 
     return result
